@@ -375,47 +375,63 @@ def case_hash(obj):
 # --------------------------------------------------------------------------- trace validation
 
 def validate_trace(trace_module, cfg, trace_path, tag, *, shards=None, timeout=1800):
-    """Run X_Trace over trace.ndjson (sharded over several TLC processes). Returns (diffs, n_lines).
-    diffs: list of (line_index_in_whole_trace, [items])"""
+    """Run X_Trace over trace.ndjson (sharded over several TLC processes).
+    Returns (diffs, n_lines, unjudged): diffs = list of (line index in the whole trace, [items]);
+    unjudged = indices of records on which TLC itself failed (e.g. an observation too large to
+    evaluate) - validation resumes after such a record, and the caller turns them into 'no verdict'."""
     lines = open(trace_path, encoding="utf-8").read().splitlines()
     lines = [l for l in lines if l.strip()]
     n = len(lines)
     if n == 0:
-        return [], 0
+        return [], 0, []
     if shards is None:
         shards = max(1, min(NCPU, n // 400 + 1))
     per = (n + shards - 1) // shards
-    jobs = []
-    for s in range(shards):
-        chunk = lines[s * per:(s + 1) * per]
-        if not chunk:
-            continue
-        d = workdir("%s-trace%d" % (tag, s))
-        with open(os.path.join(d, "trace.ndjson"), "w", encoding="utf-8") as f:
-            f.write("\n".join(chunk) + "\n")
-        jobs.append((s * per, len(chunk), d))
-    # run in parallel
     import concurrent.futures as cf
     diffs = []
+    unjudged = []
 
     def one(job):
-        off, cnt, d = job
-        r = run_tlc(trace_module, cfg, d, workers=1, timeout=timeout, deadlock=False)
-        return off, cnt, r
-
-    with cf.ThreadPoolExecutor(max_workers=min(len(jobs), NCPU)) as ex:
-        for off, cnt, r in ex.map(one, jobs):
+        off, chunk = job
+        out = []
+        bad = []
+        while chunk:
+            if len(chunk[0]) > 8_000_000:          # TLC cannot digest it: unjudged, skip
+                bad.append(off)
+                off, chunk = off + 1, chunk[1:]
+                continue
+            d = workdir("%s-trace" % tag)
+            with open(os.path.join(d, "trace.ndjson"), "w", encoding="utf-8") as f:
+                f.write("\n".join(chunk) + "\n")
+            r = run_tlc(trace_module, cfg, d, workers=1, timeout=timeout, deadlock=False)
+            shutil.rmtree(d, ignore_errors=True)
             if r.timed_out:
                 raise NoVerdict("trace validation timed out (%s)" % trace_module)
-            if r.error or r.violation:
-                raise NoVerdict("trace validation failed (%s): %s" % (trace_module, (r.error or r.violation or "")[:3000] + r.stdout[-1500:]))
-            if r.postcondition_failed or r.distinct != cnt + 1:
-                raise NoVerdict("trace not fully consumed by %s: %d of %d lines\n%s" % (trace_module, r.distinct - 1, cnt, r.stdout[-2000:]))
             for tagname, pre, obj in parse_tagged(r.stdout):
                 if tagname == "DIFF":
-                    diffs.append((off + int(pre[0]) - 1, obj))
+                    out.append((off + int(pre[0]) - 1, obj))
+            consumed = max(0, r.distinct - 1)
+            if (r.error or r.violation) and consumed < len(chunk):
+                if consumed == 0 and "ndJsonDeserialize" not in r.stdout and len(chunk) == len(lines):
+                    pass
+                log("[trace] TLC failed on record %d (%s...): unjudged, resuming after it" % (off + consumed, (r.error or "")[:200].replace("\n", " ")))
+                bad.append(off + consumed)
+                off, chunk = off + consumed + 1, chunk[consumed + 1:]
+                if len(bad) > 20:
+                    raise NoVerdict("trace validation fails repeatedly (%s): %s" % (trace_module, (r.error or "")[:2000]))
+                continue
+            if r.error or r.violation or r.postcondition_failed or r.distinct != len(chunk) + 1:
+                raise NoVerdict("trace not fully consumed by %s: %d of %d lines\n%s" % (trace_module, r.distinct - 1, len(chunk), r.stdout[-2000:]))
+            break
+        return out, bad
+
+    jobs = [(s * per, lines[s * per:(s + 1) * per]) for s in range(shards) if lines[s * per:(s + 1) * per]]
+    with cf.ThreadPoolExecutor(max_workers=min(len(jobs), NCPU)) as ex:
+        for out, bad in ex.map(one, jobs):
+            diffs.extend(out)
+            unjudged.extend(bad)
     diffs.sort(key=lambda x: x[0])
-    return diffs, n
+    return diffs, n, sorted(unjudged)
 
 
 # --------------------------------------------------------------------------- known findings
